@@ -404,12 +404,13 @@ func TestC03Frames(t *testing.T) {
 			// index order is the timestamp order. Accept iff newer than all accepted.
 			n := c.Int("signed.n", 1, 12)
 			mt := core.OneOf(c, "signed.type", frame.RouterPing, frame.RouterHopPing, frame.RouterHopPingDeprecated)
-			recv, frames, b := c03Frames(c, mt, n)
+			pr := c03NewPair(c)
+			recv, frames, b := pr.sBA, pr.seal(c, mt, n), pr.builder
 			if c.Chance("signed.explicit-times", 1, 3) {
 				// Signing times chosen by the harness: strictly increasing with the
 				// index, spread around the next multiple of 2^32 milliseconds (the
 				// 64-bit time field must be compared as a whole).
-				pr := c03NewPair(c)
+				pr = c03NewPair(c)
 				recv, b = pr.sBA, pr.builder
 				base := time.UnixMilli(((time.Now().UnixMilli() >> 32) + 1) << 32)
 				offs := make([]int, n)
@@ -439,10 +440,26 @@ func TestC03Frames(t *testing.T) {
 					// The session gets new end-to-end keys in between (a completed key
 					// setup, or keys dropped after a "no keys" error): the order of signed
 					// frames is a matter of the session, not of its encryption keys.
-					if c.Bool("signed.rekey.drop") {
-						recv.SetEncryptionSession(nil)
-					} else if _, eb, err := vnet.EncPair(); err == nil {
-						recv.SetEncryptionSession(eb)
+					// Either on the session object or through the state manager, as the
+					// error ping handler does it; the router looks the session up by
+					// address for every frame, so does the harness from then on.
+					viaState := c.Bool("signed.rekey.via-state-manager")
+					var enc *state.EncryptionSession
+					if !c.Bool("signed.rekey.drop") {
+						if _, eb, err := vnet.EncPair(); err == nil {
+							enc = eb
+						}
+					}
+					if viaState {
+						if err := pr.pb.St.SetEncryptionSession(pr.pa.ID.Addr.IP, enc); err != nil {
+							c.Fatalf("set encryption session: %v", err)
+						}
+						if recv = pr.pb.St.GetSession(pr.pa.ID.Addr.IP); recv == nil {
+							c.Fatalf("session gone after its encryption keys were replaced")
+						}
+						c.Class("frame-signed/keys-replaced-through-the-state-manager")
+					} else {
+						recv.SetEncryptionSession(enc)
 					}
 					hist = append(hist, "rekey")
 					c.Class("frame-signed/session-rekeyed-in-between")
